@@ -454,6 +454,23 @@ func (e *Env) makeResolver(meta FieldMeta, ft reflect.Type) reflect.Value {
 			done("stream")
 			return []reflect.Value{ch.Convert(rt), nilErr}
 		}
+		if meta.Field == "xboom" && len(in) == argStart+1 {
+			// harness scalar echo: the resolver hands its argument back (nil stays nil)
+			a := in[argStart]
+			done("echo")
+			if a.Type() == rt {
+				return []reflect.Value{a, nilErr}
+			}
+			if a.Kind() == reflect.Ptr && !a.IsNil() && a.Type().Elem() == rt {
+				return []reflect.Value{a.Elem(), nilErr}
+			}
+			if rt.Kind() == reflect.Ptr && a.Type() == rt.Elem() {
+				p := reflect.New(rt.Elem())
+				p.Elem().Set(a)
+				return []reflect.Value{p, nilErr}
+			}
+			return []reflect.Value{reflect.Zero(rt), nilErr}
+		}
 		v := e.Value(plan, k, "", e.fieldType(meta), rt)
 		gv := e.Build(plan, v, rt)
 		done("value")
